@@ -236,11 +236,29 @@ Fixpoint read_lines (st : rstate) (ls : list text) : result rstate :=
   | l :: r => bind (read_step st l) (fun st' => read_lines st' r)
   end.
 
-(** parser.read_file(f) on top of the state c *)
-Definition read_text (c : cfg) (s : text) : result cfg :=
-  bind (read_lines {| rs_cfg := c; rs_cur := None; rs_pend := None; rs_indent := 0; rs_secs := []; rs_opts := [] |}
+(** the loop of _read run on one file by itself *)
+Definition parse_text (s : text) : result cfg :=
+  bind (read_lines {| rs_cfg := empty_cfg; rs_cur := None; rs_pend := None; rs_indent := 0; rs_secs := []; rs_opts := [] |}
                    (file_lines s))
        (fun st => OK (flush st)).
+
+(** d0.update(d) key by key: existing keys keep their place, new keys follow in the file's order *)
+Definition dmerge {A} (d0 d : dict A) : dict A := fold_left (fun acc kv => dset (fst kv) (snd kv) acc) d d0.
+Definition merge_section (secs : dict section) (p : text * section) : dict section :=
+  match assoc (fst p) secs with
+  | Some d0 => dset (fst p) (dmerge d0 (snd p)) secs
+  | None => secs ++ [p]
+  end.
+Definition cfg_merge (c fc : cfg) : cfg :=
+  {| c_defaults := dmerge (c_defaults c) (c_defaults fc);
+     c_sections := fold_left merge_section (c_sections fc) (c_sections c) |}.
+
+(** parser.read_file(f) on top of the state c.  _read stores every option directly into the live parser; it
+    looks at the live state only to decide whether a header opens an existing section or creates one, its
+    duplicate detection (elements_added) is per file, and an error aborts the whole read.  The model therefore
+    parses the file by itself and merges the result: same sections, same keys in the same positions. *)
+Definition read_text (c : cfg) (s : text) : result cfg :=
+  bind (parse_text s) (fun fc => OK (cfg_merge c fc)).
 
 (** parser.read([f1, f2, ...]); None = the file does not exist (skipped) *)
 Fixpoint read_files (c : cfg) (fs : list (option text)) : result cfg :=
